@@ -28,8 +28,8 @@ ASSUMPTIONS = [
 
 def plan(tier):
     if tier == "quick":
-        return {"budget_s": 70, "profiles": ["R"], "min_evaluations": 2000}
-    return {"budget_s": 600, "profiles": ["R", "D", "tsan"], "min_evaluations": 50000}
+        return {"budget_s": 70, "profiles": ["R"], "min_evaluations": 300}
+    return {"budget_s": 600, "profiles": ["R", "D", "tsan"], "min_evaluations": 300}
 
 
 MODFILES = {
